@@ -214,7 +214,7 @@ def to_events(ops):
   return ev
 
 
-def reuse_cases():
+def reuse_cases(rec):
   """one callback instance writes several records, as a station does: a call that fails part-way (serializer
   fault, interruption, failing write) publishes nothing - neither at once nor as part of what a later
   successful call publishes ("on success the destination holds exactly the serialized record")"""
@@ -249,26 +249,33 @@ def reuse_cases():
       scratch = tempfile.mkdtemp(prefix='vf-c17r-')
       try:
         tempfile.tempdir = scratch
-        dest = os.path.join(scratch, 'dut.out')
-        cb = Chunked(os.path.join(scratch, 'dut.out'))
+        # the three records differ in a field of the file name pattern only (same DUT, same start time): "the
+        # file name is the pattern formatted with the record's fields"
+        cb = Chunked(os.path.join(scratch, '{dut_id}.{metadata[test_name]}.out'))
         seen = []
         for k in (1, 2, 3):
+          import copy
+          rk = copy.copy(rec)
+          rk.metadata = dict(rec.metadata, test_name='run%d' % k)
           try:
-            cb(None)
+            cb(rk)
             err = None
           except BaseException as e:  # pylint: disable=broad-except
             err = type(e).__name__
-          content = open(dest, 'rb').read() if os.path.exists(dest) else None
-          seen.append((err, content))
+          files = {}
+          for f in sorted(os.listdir(scratch)):
+            if f.endswith('.out'):
+              files[f.split('.')[-2]] = open(os.path.join(scratch, f), 'rb').read()
+          seen.append((err, files))
         n += 1
-        want = [(exc.__name__, None), (None, b'{run2-chunk0}{run2-chunk1}{run2-chunk2}'),
-                (None, b'{run3-chunk0}{run3-chunk1}{run3-chunk2}')]
+        c2, c3 = b'{run2-chunk0}{run2-chunk1}{run2-chunk2}', b'{run3-chunk0}{run3-chunk1}{run3-chunk2}'
+        want = [(exc.__name__, {}), (None, {'run2': c2}), (None, {'run2': c2, 'run3': c3})]
         if seen != want:
           what = 'the call that failed published something' if seen[0] != want[0] else \
-              'a successful call after a failed one does not publish exactly its own serialized record'
+              'a successful call after a failed one does not publish exactly its own serialized record under its own name'
           bad.append(('OutputToFile: one callback instance used for three records, the first call failing (%s): %s'
                       % (kind, what), dict(kind=kind, fail_after=fail_after,
-                                           seen=[(e, c.decode() if c is not None else None) for e, c in seen])))
+                                           seen=[(e, {k_: v_.decode('latin1')[:80] for k_, v_ in c.items()}) for e, c in seen])))
       finally:
         tempfile.tempdir = None
         shutil.rmtree(scratch, ignore_errors=True)
@@ -351,7 +358,7 @@ def main(chk):
     chk.violation('a recorded operation sequence is not understood by AtomicPublish_trace.tla', by_id[r])
   for sig, det in crash_bad:
     chk.violation(sig, det)
-  nre, rebad = reuse_cases()
+  nre, rebad = reuse_cases(rec)
   for sig, det in rebad:
     chk.violation(sig, det)
   chk.traces += nre
